@@ -237,7 +237,8 @@ class C07(SimCheck):
     assumptions = SIM_ASSUME + ["(b) " + x for x in THR_ASSUME]
 
     def jobs(self, tier, seed, excludes):
-        return SimCheck.jobs(self, tier, seed, excludes) + thread_jobs("C07", seed, tier == "quick", 1, 4, 40, 2000)
+        # thread jobs first: they are slow in wall time (real timeouts) and must not queue behind the simulator workers
+        return thread_jobs("C07", seed, tier == "quick", 1, 4, 40, 2000) + SimCheck.jobs(self, tier, seed, excludes)
 
     def replay_for_text(self, text):
         return ("threads_tasan", []) if "\nbackend " in "\n" + text else ("sim_replay", [])
